@@ -32,10 +32,13 @@ def run(rng, tier, res=None):
         sep = rng.choice([0.0, 0.5, 1.5, 4.0])
         Y = np.array([i % K for i in range(n)], dtype=int)
         rng.shuffle(Y)
-        if rng.random() < 0.4:
-            # integer grid: exact ties among arc weights (training error can be non-zero there)
-            X = np.array([[float(rng.randint(0, 3)) for _ in range(max(2, d))] for i in range(n)])
-            d = X.shape[1]
+        if rng.random() < 0.5:
+            # small integer grid with labels independent of position: exact ties among arc weights, coincident
+            # points, training samples conquered by another class (assigned label != true label)
+            g = rng.choice([2, 3])
+            X = np.array([[float(rng.randint(0, g)) for _ in range(2)] for i in range(n)])
+            d = 2
+            Y = np.array([rng.randrange(K) for _ in range(n)], dtype=int)
         else:
             X = np.array([[rng.gauss(sep * Y[i], 1.0) for _ in range(d)] for i in range(n)])
         Xt, Yt, Xv, Yv = X[:nt].copy(), Y[:nt].copy(), X[nt:].copy(), Y[nt:].copy()
@@ -120,7 +123,7 @@ def run(rng, tier, res=None):
         lines.append(line); obs.append(str(best)); metas.append(meta)
         res.add_case(line, nontrivial=len(accs) >= 2)
         if case < 1:
-            res.samples.append({"input": lines[-2][:200], "impl": obs[-2][:200]})
+            res.samples.append({"input": lines[-1][:200], "impl": obs[-1][:200]})
 
         # ---------------- prune ----------------
         Xt2, Yt2 = X[:nt].copy(), Y[:nt].copy()
@@ -175,5 +178,27 @@ def run(rng, tier, res=None):
             res.add_case(line, nontrivial=(sum(relv) < len(relv)))
             res.hit("prune_step")
         viol(msgs, meta)
+    # ---------------- prune on tie-rich data (labels must stay attached to their rows) ----------------
+    for case in range(ncases * 6):
+        nt = rng.choice([5, 6, 7, 8]); K = rng.choice([2, 2, 3])
+        g = rng.choice([2, 3])
+        Xt = np.array([[float(rng.randint(0, g)) for _ in range(2)] for _ in range(nt)])
+        Yt = np.array([rng.randrange(K) for _ in range(nt)], dtype=int)
+        Yt[0] = K - 1; Yt[1] = 0
+        Xv, Yv = Xt.copy(), Yt.copy()           # validation = the training rows: many training nodes become relevant
+        metric = rng.choice(["euclidean", "squared_euclidean", "manhattan"])
+        meta = {"stream": "prune-ties", "Xt": Xt.tolist(), "Yt": Yt.tolist(), "metric": metric}
+        p = S.SupervisedOPF(distance=metric)
+        try:
+            p.prune(Xt.copy(), Yt.copy(), Xv, Yv, n_iterations=rng.choice([1, 2]))
+        except Exception as ex:
+            res.hit("prune_ties_raised_" + type(ex).__name__)
+            continue
+        orig = Counter(key(r, l) for r, l in zip(Xt, Yt))
+        fin = Counter((nd.features.tobytes(), nd.label) for nd in p.subgraph.nodes)
+        if any(fin[k] > orig.get(k, 0) for k in fin):
+            viol("pruned training set is not a sub-multiset of the original (a kept row carries another label)", meta)
+        res.hit("prune_ties_checked")
+        res.add_case("prune-ties " + repr(meta["Xt"]) + repr(meta["Yt"]) + metric, nontrivial=True)
     compare(res, lines, obs, metas)
     return res
